@@ -344,7 +344,8 @@ impl Family for NameLengthsDense {
     }
     fn describe(&self, idx: u64) -> J {
         let d = digits(idx, &[701, 3]);
-        json!({"length": d[0], "applies_to": ["table", "column name", "both"][d[1] as usize]})
+        let which = ["table", "column name", "both"][d[1] as usize];
+        json!({"length": d[0], "applies_to": which})
     }
 }
 
